@@ -160,6 +160,51 @@ Qed.
 Lemma tmp_only_torn sk f off len n : tmp_only sk (OWrite f off n) = tmp_only sk (OWrite f off len).
 Proof. reflexivity. Qed.
 
+(* crash inside the publishing tail: either the four final names are as after the writes, or the
+   seal is complete *)
+Lemma publish_cases p s0 l' :
+  inv p s0 -> tprefix l' (publish_ops p) ->
+  let s1 := run (pre_ops p) s0 in
+  (run l' s1 Docs = s1 Docs /\ run l' s1 Meta = s1 Meta /\ run l' s1 Index = s1 Index /\ run l' s1 Sdocs = s1 Sdocs)
+  \/ sealed_state p (run l' s1).
+Proof.
+  intros Hinv H s1.
+  destruct (after_pre p s0 Hinv) as [Hd [Hm [Hi [[ci [Hit [Hcw Hwf]]] Hs]]]].
+  fold s1 in Hd, Hm, Hi, Hit, Hs.
+  destruct Hinv as [A [B C]].
+  unfold publish_ops in H. simpl in H.
+  destruct (tprefix_cons_inv _ _ _ H eq_refl) as [-> | [l1 [-> H1]]]; [left; auto|].
+  destruct (tprefix_cons_inv _ _ _ H1 eq_refl) as [-> | [l2 [-> H2]]].
+  { left. unfold run. simpl. rewrite Hit. auto. }
+  right.
+  assert (S2 : sealed_state p (run [OFsync IndexTmp; ORename IndexTmp Index] s1)).
+  { rewrite (run_fsync_rename s1 IndexTmp Index ci Hit). unfold sealed_state, upd. simpl.
+    split. { apply complete_of; simpl; auto. }
+    split. { apply N.eqb_refl. }
+    split. { right. now rewrite Hd. }
+    split. { right. now rewrite Hm. }
+    destruct (skip_sort p); auto. split; auto. now rewrite Hd. }
+  set (s2 := run [OFsync IndexTmp; ORename IndexTmp Index] s1) in *.
+  change (OFsync IndexTmp :: ORename IndexTmp Index :: l2) with ([OFsync IndexTmp; ORename IndexTmp Index] ++ l2).
+  rewrite run_app. fold s2.
+  destruct (tprefix_cons_inv _ _ _ H2 eq_refl) as [-> | [l3 [-> H3]]]; [exact S2|].
+  destruct (tprefix_cons_inv _ _ _ H3 eq_refl) as [-> | [l4 [-> H4]]]; [exact S2|].
+  assert (S3 : sealed_state p (run [OFsyncDir; OUnlink Meta] s2)).
+  { destruct S2 as [X1 [X2 [X3 [X4 X5]]]]. unfold run, sealed_state, upd. simpl.
+    split; [exact X1|]. split; [exact X2|]. split; [exact X3|]. split; [left; reflexivity|]. exact X5. }
+  destruct (skip_sort p) eqn:Sk.
+  + apply tprefix_nil_inv in H4. subst. exact S3.
+  + destruct (tprefix_cons_inv _ _ _ H4 eq_refl) as [-> | [l5 [-> H5]]]; [exact S3|].
+    apply tprefix_nil_inv in H5. subst.
+    destruct S2 as [X1 [X2 [X3 [X4 X5]]]]. unfold run, sealed_state, upd. simpl.
+    rewrite Sk in *.
+    split; [exact X1|]. split; [exact X2|]. split; [left; reflexivity|].
+    split; [left; reflexivity|]. exact X5.
+Qed.
+
+Lemma inv_after_pre p s0 : inv p s0 -> inv p (run (pre_ops p) s0).
+Proof. intros H. apply inv_tmp_only; auto. apply tmp_only_pre. Qed.
+
 Lemma good_after_ops p s0 l :
   inv p s0 -> tprefix l (seal_ops p) -> good p (run l s0).
 Proof.
@@ -168,40 +213,8 @@ Proof.
   - left. apply inv_tmp_only; auto.
     apply (tprefix_forallb _ _ _ (tmp_only_torn (skip_sort p)) H (tmp_only_pre p)).
   - rewrite run_app.
-    destruct (after_pre p s0 Hinv) as [Hd [Hm [Hi [[ci [Hit [Hcw Hwf]]] Hs]]]].
-    set (s1 := run (pre_ops p) s0) in *.
-    assert (I1 : inv p s1).
-    { destruct Hinv as [A [B C]]. split; [now rewrite Hd|]. split; [now rewrite Hm|].
-      destruct (skip_sort p); auto. now rewrite Hi. }
-    destruct Hinv as [A [B C]].
-    unfold publish_ops in H. simpl in H.
-    (* nothing, or fsync of the temp index: still the originals *)
-    destruct (tprefix_cons_inv _ _ _ H eq_refl) as [-> | [l1 [-> H1]]]; [left; exact I1|].
-    destruct (tprefix_cons_inv _ _ _ H1 eq_refl) as [-> | [l2 [-> H2]]].
-    { left. unfold run. simpl. rewrite Hit. apply (inv_ext p s1); auto. }
-    (* from the rename on: a complete, durable index is in place *)
-    assert (S2 : sealed_state p (run [OFsync IndexTmp; ORename IndexTmp Index] s1)).
-    { rewrite (run_fsync_rename s1 IndexTmp Index ci Hit). unfold sealed_state, upd. simpl.
-      split. { apply complete_of; simpl; auto. }
-      split. { apply N.eqb_refl. }
-      split. { right. now rewrite Hd. }
-      split. { right. now rewrite Hm. }
-      destruct (skip_sort p); auto. split; auto. now rewrite Hd. }
-    set (s2 := run [OFsync IndexTmp; ORename IndexTmp Index] s1) in *.
-    change (OFsync IndexTmp :: ORename IndexTmp Index :: l2) with ([OFsync IndexTmp; ORename IndexTmp Index] ++ l2).
-    rewrite run_app. fold s2. right.
-    destruct (tprefix_cons_inv _ _ _ H2 eq_refl) as [-> | [l3 [-> H3]]]; [exact S2|].
-    destruct (tprefix_cons_inv _ _ _ H3 eq_refl) as [-> | [l4 [-> H4]]]; [exact S2|].
-    assert (S3 : sealed_state p (run [OFsyncDir; OUnlink Meta] s2)).
-    { destruct S2 as [X1 [X2 [X3 [X4 X5]]]]. unfold run, sealed_state, upd. simpl.
-      split; [exact X1|]. split; [exact X2|]. split; [exact X3|]. split; [left; reflexivity|]. exact X5. }
-    destruct (skip_sort p) eqn:Sk.
-    + apply tprefix_nil_inv in H4. subst. exact S3.
-    + destruct (tprefix_cons_inv _ _ _ H4 eq_refl) as [-> | [l5 [-> H5]]]; [exact S3|].
-      apply tprefix_nil_inv in H5. subst.
-      destruct S2 as [X1 [X2 [X3 [X4 X5]]]]. unfold run, sealed_state, upd. simpl.
-      rewrite Sk in *. split; [exact X1|]. split; [exact X2|]. split; [left; reflexivity|].
-      split; [left; reflexivity|]. exact X5.
+    destruct (publish_cases p s0 l' Hinv H) as [[E1 [E2 [E3 E4]]] | S]; [|now right].
+    left. apply (inv_ext p (run (pre_ops p) s0)); auto. now apply inv_after_pre.
 Qed.
 
 (* main lemma: any torn prefix of a seal run (with or without a write fault), any power loss *)
